@@ -177,7 +177,10 @@ def run(ctx):
         fc = ctx.rng.choice([300, 400, 500, 600, 700, 800])
         cj = ctx.rng.choice([2, 3, 4, 5])
         # every fifth run writes into the directory the previous run left behind (its logs must be started afresh)
-        tr = one_run(ctx, lc, i + 1, seq, req, nflat, fc, cj, ctx.seed * 100 + i, budget=ctx.pick(25000, 60000),
+        if i == 2:
+            # many failed flat checks in the first iteration (10 bins over [0,1] are not all reachable for a 12-mer)
+            req, nflat, fc = (10, 0, 10), 20, 800
+        tr = one_run(ctx, lc, i + 1, seq, req, nflat, fc, cj, ctx.seed * 100 + i, budget=ctx.pick(25000, 60000) if i != 2 else 4000,
                      reuse_dir=(i % 5 == 1), keep_dir=(i % 5 == 0))
         if tr:
             trs.append(tr)
